@@ -2,6 +2,8 @@ import SoxrModel.Conv.Model
 /-! Lemmas on `rhe` (round half even of `x / d`): nearest, ties to even, exact on multiples, sign, monotone. -/
 namespace Soxr.Conv
 
+theorem unit_pos : 0 < unit := Nat.two_pow_pos U
+
 theorem rhe_cases (x : Int) (d : Nat) (hd : 0 < d) :
     ∃ q r : Int, x = q * d + r ∧ 0 ≤ r ∧ r < d ∧
       rhe x d = (if 2 * r < d then q else if (d : Int) < 2 * r then q + 1 else if q % 2 = 0 then q else q + 1) := by
